@@ -14,12 +14,13 @@ MODULE = "DaliVerif.Props.C03"
 EXES = ["m_cmd"]
 GEN = True
 # tie by translation (DESIGN.md II.8): the frame-assembling constructors of 276 command classes and dali/address.py
-TIE_MODULES = ["DaliVerif.Tie.Command", "DaliVerif.Tie.Address", "DaliVerif.Tie.Event"]
+TIE_MODULES = ["DaliVerif.Tie.Command", "DaliVerif.Tie.Address", "DaliVerif.Tie.Event", "DaliVerif.Tie.Special"]
 TIE_THEOREMS = ["Tie.Command.%s" % n for n in
                 ("stdNoParam_tie", "stdParam_tie", "dapc_tie", "devStd_tie", "devInst_tie",
                  "std_rows_traced", "dev_rows_traced", "inst_rows_traced")] + \
                ["Tie.Event.%s_%s_tie" % (f, sc) for f in ("ev", "evLight", "evOcc")
-                for sc in ("device", "deviceInstance", "deviceGroup", "instanceGroup", "inst")]
+                for sc in ("device", "deviceInstance", "deviceGroup", "instanceGroup", "inst")] + \
+               ["Tie.Special.specialParam_tie", "Tie.Special.specialNoParam_tie", "Tie.Special.special_rows_traced"]
 THEOREMS = ["table_conforms", "rows_registered", "frame_is_standard", "frame_is_standard_gen",
             "extended_commands_carry_devicetype", "address_patterns"]
 TRUSTED = ["Spec/IEC62386.lean: 322 rows of the IEC 62386 command tables (parts 102, 103, 202, 205, 206, 207, 209, "
